@@ -35,8 +35,9 @@ META = {
                   "from traverse_ir, their scope context is computed independently); harness/gen_scope.py's oracle for the "
                   "by-construction labels.  Modelled not verified: the Python source itself.  The four-traversal table "
                   "construction is mirrored by effect (per-dict candidate list in phase order), which the correspondence "
-                  "checks including duplicate-error locations.  Python exceptions are distinct model results (Stuck / "
-                  "CrashParam); three crash classes of the real resolver are findings.",
+                  "checks including duplicate-error locations.  Python exceptions are the distinct model result Stuck; "
+                  "member access on a parameter (F15, fixed by e48f2e2 + 6efa7de) is mirrored as the noncomposite error and replayed "
+                  "from corpus/C12; three other crash classes of the resolver stage are listed findings.",
 }
 
 HEADER = ("Require Import EmbossV.Scope.Model EmbossV.Scope.Exec.\n"
@@ -48,7 +49,6 @@ CORPUS = os.path.join(fw.VERIF, "corpus", "C12")
 PROBES = [
     ("abbr-static-leak", {"m.emb": "struct Foo:\n  0 [+1]  UInt  apple (a)\nstruct Bar:\n  0 [+1]  UInt  x\n  let y = Foo.a\n"},
      "resolver binds Foo.a to Foo.apple; the full compiler must still reject the module"),
-    ("param-member", {"m.emb": "struct Foo(p: UInt:8):\n  p.x [+1]  UInt  y\n"}, "F15"),
     ("import-alias-as-field", {"m.emb": "import \"o.emb\" as imp\nstruct Foo:\n  0 [+1]  UInt  x\n  let a = imp\n",
                                "o.emb": "struct Baz:\n  0 [+1]  UInt  q\n"}, "crash"),
     ("module-attribute-reference", {"m.emb": "[foo: Bar.BAZ]\nenum Bar:\n  BAZ = 1\n"}, "crash"),
@@ -103,9 +103,9 @@ def norm_name(ranks, file, s):
 
 
 def crash_key(ob):
-    stage, rep, fn, exc = ob.crash
+    stage, rep, fn, exc = ob.crash[:4]
     if stage == "resolve_field_references" and exc == "AttributeError" and "RuntimeParameter" in rep:
-        return "resolver-crash-parameter-member"
+        return "resolver-crash-parameter-member"       # F15, fixed by e48f2e2 + 6efa7de: a regression fires
     if stage == "dependency_checker" and exc == "KeyError":
         return "resolver-crash-import-alias-as-field"
     if stage == "resolve_symbols" and exc == "AssertionError" and "current_scope" in rep:
